@@ -156,14 +156,20 @@ def run_case(case):
         sched_cbs = [inp.scheduled_event_trigger(sched_class(i, sched_counters[i])) for i in range(ntrig.get("scheduled", 2))]
 
         trigger_failures = []
+        # a trigger callback running on behalf of the harness ("another thread") is not itself interrupted by a further injected
+        # action: two calls of one trigger racing each other have no defined order, so nothing could be judged about them
+        in_callback = [0]
 
         def guarded(fn, what):
             # a trigger callback is called "from another thread": if it raises, the event is lost - that is a failure of
             # the library, recorded and reported after the current step
+            in_callback[0] += 1
             try:
                 fn()
             except Exception as e:  # noqa
                 trigger_failures.append(f"{what} raised {exc_str(e)}")
+            finally:
+                in_callback[0] -= 1
 
         def act_arrive(data, late=False, tokens=None):
             if setup == "pty" and len(model.fifo) - model.held + len(data) > 3500:
@@ -278,7 +284,7 @@ def run_case(case):
                     if inject is not None:
                         res.label("line_injection")
                         res.nontrivial = True
-                        with LineInjector(inject["line"], lambda: perform(inject["act"], late=True)):
+                        with LineInjector(inject["line"], lambda: perform(inject["act"], late=True), suspended=lambda: in_callback[0] > 0):
                             out = inp.send(timeout)
                     else:
                         out = inp.send(timeout)
